@@ -432,6 +432,71 @@ def rule_norm_route(ctx):
             ctx.violation("%s|score_row-haystack|1" % fn.path, site(fn, bi), "score_row called with %s instead of the normalized slab copy" % show(h))
 
 
+
+def predicate_returns(facts, fn, depth=0):
+    """All values a predicate closure can return, following calls to local closures/functions:
+    [(Fn, bb, expr)]"""
+    out = []
+    if depth > 3:
+        raise Inconclusive("predicate nesting too deep in %s" % fn.path)
+    for bi, si, rv in ret_aggregates(fn):
+        out.append((fn, bi, fn.expr_of_rvalue(rv)))
+    for bi, t in fn.calls(lambda t: t["dest"]["l"] == 0 and not t["dest"]["p"]):
+        c = callee(t)
+        body = facts.body(M, c)
+        if body is None and (t.get("fn") or "").startswith("std::ops::Fn"):
+            # call of a captured closure: resolve through the resolved instance or the closure type
+            r = t.get("resolved")
+            if r:
+                body = facts.body(M, r)
+            if body is None:
+                ty = (t.get("arg_tys") or [""])[0]
+                m = None
+                for b2 in facts.bodies_of(M):
+                    if b2["kind"] == "Closure" and ("%s:%d:%d" % (b2["loc"]["file"], b2["loc"]["line"], b2["loc"]["col"])) in ty:
+                        m = b2
+                body = m
+        if body is not None and body["path"] != fn.path:
+            out += predicate_returns(facts, fn_of(body), depth + 1)
+        elif c in NORMALIZE_FNS:
+            out.append((fn, bi, ("call", c, tuple(fn.expr_of_operand(a) for a in t["args"]), t.get("fn"), (bi, 0))))
+        else:
+            raise Inconclusive("predicate in %s returns the result of %s, which cannot be followed" % (fn.path, c))
+    return out
+
+
+def rule_predicate_purity(ctx):
+    """The scanning predicates of the non-ASCII prefilter decide by nothing but the normalized
+    comparison: a branch that answers `false`/`true` without normalizing the haystack character is
+    a second, different normalizer."""
+    facts = ctx.facts
+    fn = get_fn(facts, M, "prefilter::<impl Matcher>::prefilter_non_ascii")
+    n = 0
+    for bi, t in fn.calls(lambda t: callee(t).endswith("::position") or callee(t).endswith("::rposition") or callee(t).endswith("Iterator::find") or callee(t).endswith("Iterator::any")):
+        clo = fn.expr_of_operand(t["args"][1])
+        if clo[0] != "closure":
+            ctx.fail_closed("scan predicate at %s is not a closure literal" % site(fn, bi))
+            continue
+        cf = get_fn(facts, M, clo[1])
+        n += 1
+        bad = []
+        for f2, b2, e in predicate_returns(facts, cf):
+            if e[0] == "bin" and e[1] in ("Eq", "Ne") and normalized(facts, f2, e[2]):
+                continue
+            if e[0] == "bin" and e[1] in ("Eq", "Ne") and normalized(facts, f2, e[3]):
+                continue
+            if e[0] == "call" and (str(e[3]).endswith("PartialEq::eq") or str(e[3]).endswith("PartialEq::ne")) and normalized(facts, f2, e[2][0]):
+                continue
+            bad.append((f2, b2, e))
+        if bad:
+            f2, b2, e = bad[0]
+            ctx.violation("%s|predicate|%d" % (fn.path, n), site(f2, b2),
+                          "the prefilter's scan predicate can answer %s without comparing the normalized haystack character with the needle character: for characters that only the normalizer maps onto the needle (e.g. ſ → s, K → k under case folding) the prefilter rejects what the scorer accepts" % show(e)[:60])
+        else:
+            ctx.ok(site(cf, 0), "scan predicate is exactly `normalize(c) == needle_char`")
+    ctx.floor("scan predicates in prefilter_non_ascii", n, 2)
+
+
 # ---------------------------------------------------------------- repr-only
 
 DISPATCHERS = ("Matcher::fuzzy_matcher_impl", "Matcher::fuzzy_match_greedy_impl", "Matcher::substring_match_impl", "Matcher::exact_match_impl")
@@ -543,6 +608,7 @@ def rule_window(ctx):
 
 def rules(ctx):
     ctx.run_rule("C01.norm-route", rule_norm_route)
+    ctx.run_rule("C01.predicate-purity", rule_predicate_purity)
     ctx.run_rule("C01.norm-siblings", rule_norm_siblings)
     ctx.run_rule("C01.repr-only", rule_repr_only)
     ctx.run_rule("C01.window", rule_window)
